@@ -1066,10 +1066,74 @@ def clean_grammar(start, prods):
     return [p for p in prods if p.lhs in reach]
 
 
-def random_grammar(rng):
-    """(start, productions, style): <= 6 nonterminals, <= 10 productions, <= 4 terminals."""
+def nullchain_grammar(rng):
+    """A grammar with a nonterminal that is nullable only THROUGH other nonterminals (chain depth
+    2 or 3: T -> E1 E2, U -> T E3, Ei -> <empty> [| terminal]), used at the start, in the middle or
+    at the end of the start production, after/before a terminal, a nonterminal or nothing.  FIRST and
+    nullable must be propagated through the chain for the look-aheads of whatever precedes it."""
     from compiler.util import parser_types
     P = parser_types.Production
+    pool = ["a", "b", "c", "d"]
+    rng.shuffle(pool)
+    depth = rng.choice([2, 2, 3])
+    pre = rng.choice(["none", "terminal", "nonterminal", "nonterminal", "nonterminal"])
+    post = rng.choice(["none", "terminal", "terminal", "nonterminal"])
+    if pre == "none" and post == "none":
+        pre = "nonterminal"
+    prods = []
+    # at most 6 nonterminals: N0, two leaves, the chain (1 or 2) and what is left for pre/post/third leaf
+    if depth == 3 and pre == "nonterminal" and post == "nonterminal":
+        if rng.random() < 0.5:
+            pre = "terminal"
+        else:
+            post = "terminal"
+    third_leaf = depth == 3 and pre != "nonterminal" and post != "nonterminal" and rng.random() < 0.6
+
+    def take():
+        return pool.pop() if pool else None
+
+    pre_syms, post_syms = [], []
+    if pre == "terminal":
+        pre_syms = [take()]
+    elif pre == "nonterminal":
+        pre_syms = ["N1"]
+    if post == "terminal":
+        post_syms = [take()]
+    elif post == "nonterminal":
+        post_syms = ["N2"]
+    if pre == "nonterminal":
+        prods.append(P("N1", (take(),)))
+    if post == "nonterminal":
+        prods.append(P("N2", (take(),)))
+    leaves = ["N3", "N4"] + (["N5"] if third_leaf else [])
+    for e in leaves:
+        prods.append(P(e, ()))
+        if pool and rng.random() < 0.4:
+            prods.append(P(e, (take(),)))
+    chain = "N6" if depth == 2 else "N7"
+    if depth == 2:
+        prods.append(P("N6", ("N3", "N4")))
+    else:
+        prods.append(P("N6", ("N3", "N4")))
+        if "N5" in leaves:
+            prods.append(P("N7", rng.choice([("N6", "N5"), ("N5", "N6")])))
+        else:
+            prods.append(P("N7", ("N6",)))
+    # the chain nonterminal once or (rarely) twice in the start production
+    mid = [chain]
+    prods.insert(0, P("N0", tuple(pre_syms + mid + post_syms)))
+    if rng.random() < 0.3 and len(prods) < 10 and pool:
+        prods.insert(1, P("N0", (take(),)))
+    return "N0", prods[:10], "nullchain"
+
+
+def random_grammar(rng):
+    """(start, productions, style): <= 6 nonterminals (7 symbols names for the nullable-chain family),
+    <= 10 productions, <= 4 terminals."""
+    from compiler.util import parser_types
+    P = parser_types.Production
+    if rng.random() < 0.15:
+        return nullchain_grammar(rng)
     nnt = rng.choice([1, 1, 2, 2, 3, 3, 4, 5, 6])
     nt = ["N%d" % i for i in range(nnt)]
     terms = ["a", "b", "c", "d"][:rng.choice([1, 2, 2, 2, 3, 3, 4])]
